@@ -525,8 +525,12 @@ class World:
             if l.startswith("#SBATCH "):
                 k, _, v = l[len("#SBATCH "):].partition("=")
                 info["sbatch_opts"].setdefault(k, []).append(v)
-        if srun:
-            info["run_script"] = srun[-1][5:].strip()
+        body = [l for l in text.split("\n") if l.strip() and not l.startswith("#")]
+        cand = srun[-1] if srun else (body[-1] if body else "")
+        # the batch's run script: the first word of the launch line that is an existing file (srun options are tolerated)
+        files = [t for t in shlex.split(cand) if os.path.isfile(t)] if cand else []
+        if files:
+            info["run_script"] = files[0]
             if os.path.exists(info["run_script"]):
                 lines = [l for l in open(info["run_script"]).read().split("\n") if l.strip() and not l.startswith("#")]
                 info["run_text"] = lines
